@@ -941,7 +941,7 @@ mod spawn {
 		};
 		let _ = wx.send_event(Event::default(), Priority::Urgent).await;
 		let main = wx.main();
-		for _ in 0..1000 {
+		for _ in 0..6000 {
 			if out.exists() && std::fs::metadata(&out).map(|m| m.len() > 0).unwrap_or(false) {
 				break;
 			}
